@@ -350,6 +350,17 @@ ICase build_irq(vf::Stream& s) {
         c.vctx = ctx;
     }
     st[flat::F_cpc] = s.bits(1);
+    if (!ctx && s.chance(1, 6)) {
+        // the interrupted stream is a single-instruction repeat: `rep #n ; inc a0`. The request is latched in the cycle that
+        // executes `rep`; the stream that resumes after the return must have run its instruction n + 1 times
+        unsigned n = 1 + (unsigned)s.below(12);
+        c.opcode = W("rep(Imm8)", {(long)n});
+        c.expansion = W("moda4(ModaOp#16,Ax,CondValue)", {13, 0, 0}); // inc a0 (the word after `rep`)
+        c.pokes.push_back({handler, W("reti(CondValue)", {0})});
+        c.cycles = n + 3;
+        c.tag = "irqrep " + std::to_string(n);
+        return c;
+    }
     c.opcode = 0x0000; // nop: the interrupted stream
     c.expansion = 0x0000;
     // handler: either the bare return, or "mov #v, stt0 ; reti/retic <cond>" with a condition that holds on the handler's own
@@ -566,6 +577,26 @@ vf::Result check(const ICase& c) {
         return check_pushpop(c, t);
     if (t[0] == "irq" && t.size() >= 4)
         return check_irq(c, t);
+    if (t[0] == "irqrep" && t.size() >= 2) {
+        // differential: the same stream without the request (one instruction less: no reti)
+        icase::IResult ra = sut().exec(c);
+        ICase q = c;
+        q.irq_mask = 0;
+        q.cycles = c.cycles - 1;
+        icase::IResult rb = sut().exec(q);
+        if (ra.outcome != 0 || rb.outcome != 0) {
+            vf::note(0, false);
+            return vf::Result::pass();
+        }
+        vf::klass("interrupt requested while a single-instruction repeat starts");
+        vf::note(vf::hash_str(icase::encode(c)), true);
+        if (!(ra.after == rb.after)) {
+            std::string d = flat::diff(ra.after, rb.after);
+            return vf::Result::fail("C08:irq:rep:" + d.substr(0, d.find(':')), "a repeat interrupted at its start did not resume as the uninterrupted stream (with vs without the request) " +
+                                                                               d + " for rep #" + t[1] + " ; inc a0");
+        }
+        return vf::Result::pass();
+    }
     return check_cntx(c, t);
 }
 
